@@ -16,6 +16,19 @@ theorem thr_setPc_self (s : Sys) (t : Tid) (pc : Pc) (h : t < s.threads.length) 
 theorem thr_setPc_note_self (s : Sys) (e : GateEv) (t : Tid) (pc : Pc) (h : t < s.threads.length) :
     (((s.note e).setPc t pc).thr t).pc = pc := thr_setPc_self (s.note e) t pc h
 
+@[simp] theorem notePassed_threads (s : Sys) (i d c) : (s.notePassed i d c).threads = s.threads := by
+  unfold Sys.notePassed; split <;> rfl
+@[simp] theorem notePassed_ps (s : Sys) (i d c n) : (s.notePassed i d c).ps n = s.ps n := by
+  unfold Sys.notePassed; split <;> rfl
+@[simp] theorem notePassed_inst (s : Sys) (i d c j) : (s.notePassed i d c).inst j = s.inst j := by
+  unfold Sys.notePassed; split <;> rfl
+@[simp] theorem notePassed_thr (s : Sys) (i d c t) : (s.notePassed i d c).thr t = s.thr t := by
+  unfold Sys.notePassed; split <;> rfl
+
+theorem thr_setPc_notePassed_self (s : Sys) (i d : IId) (c : Cond) (t : Tid) (pc : Pc) (h : t < s.threads.length) :
+    (((s.notePassed i d c).setPc t pc).thr t).pc = pc :=
+  thr_setPc_self _ t pc (by simpa using h)
+
 @[simp] theorem setPc_ps (s : Sys) (t pc n) : (s.setPc t pc).ps n = s.ps n := rfl
 @[simp] theorem setPc_inst (s : Sys) (t pc i) : (s.setPc t pc).inst i = s.inst i := rfl
 @[simp] theorem emit_ps (s : Sys) (o n) : (s.emit o).ps n = s.ps n := rfl
